@@ -473,14 +473,27 @@ def inline_fresh_helpers(tree: ast.Module, ref_mod: dict, protect_renames: bool 
                 return False
             # all call sites
             sites = []
+            enclosing: Dict[int, ast.FunctionDef] = {}
             for c2 in [tree] + [n for n in tree.body if isinstance(n, ast.ClassDef)]:
                 for fn in [n for n in c2.body if isinstance(n, ast.FunctionDef)]:
                     if fn is h:
                         continue
                     icls = c2.name if isinstance(c2, ast.ClassDef) else ""
-                    for x in ast.walk(fn):
-                        if is_call(x, icls):
-                            sites.append((fn, x))
+
+                    def _sites_in(f_, outer_):
+                        # a call inside a nested function is expanded there: its statements belong to the innermost function
+                        if outer_ is not None:
+                            enclosing[id(f_)] = outer_
+                        stack = list(ast.iter_child_nodes(f_))
+                        while stack:
+                            x = stack.pop()
+                            if isinstance(x, ast.FunctionDef):
+                                _sites_in(x, f_)
+                                continue
+                            if is_call(x, icls):
+                                sites.append((f_, x))
+                            stack.extend(ast.iter_child_nodes(x))
+                    _sites_in(fn, None)
             other_refs = [x for x in ast.walk(tree) if isinstance(x, ast.Attribute) and x.attr in (hname, mangled) and not any(x is s[1].func for s in sites)] if kind != "function" else \
                 [x for x in ast.walk(tree) if isinstance(x, ast.Name) and x.id == hname and isinstance(x.ctx, ast.Load) and not any(x is s[1].func for s in sites)]
             if not sites or other_refs:
@@ -544,6 +557,13 @@ def inline_fresh_helpers(tree: ast.Module, ref_mod: dict, protect_renames: bool 
                     call.args = [a for a in call.args[:-1]] + [ast.Name(id=e.id, ctx=ast.Load()) for e in star_pre.targets[0].elts]
                     ast.fix_missing_locations(fn)
                 caller_names = _assigned_names(fn)
+                if id(fn) in enclosing:
+                    # a nested function also sees the names of the functions around it: none of them may be captured
+                    o_ = fn
+                    while id(o_) in enclosing:
+                        o_ = enclosing[id(o_)]
+                        caller_names |= _assigned_names(o_)
+                    caller_names |= {x.id for x in ast.walk(fn) if isinstance(x, ast.Name)}
                 site_no[id(fn)] = site_no.get(id(fn), 0) + 1
                 nth = site_no[id(fn)]
                 uses = {p: sum(1 for x in ast.walk(h) if isinstance(x, ast.Name) and x.id == p and isinstance(x.ctx, ast.Load)) for p in ps}
